@@ -12,6 +12,7 @@ RULE = ("sequences built by adding 0-6 elements/subsequences at positions drawn 
         "included), 35% with a gap, 20% with one deviating channel set, 15% with one deviating sample rate, with a random "
         "subset of {SR, amplitude, offset, sequencing entries} present; observed: checkConsistency (Boolean / raise) and "
         "raise/no-raise of forge, channels, + (either side), repeatAndVarySequence, outputForAWGFile, outputForSEQXFile(+WithFlags); "
+        "every 12th case a parent holding a subsequence with a hole at position 1 and a subsequence with deviating channel sets; "
         "thorough additionally enumerates all insertion orders of all subsets of {1..4}; non-trivial = at least 2 entries")
 
 
@@ -60,6 +61,46 @@ def build(g, sid, positions, SR, chans, deviant=None, has_SR=True, amp=True, off
     return ops
 
 
+def inconsistent_subs(g, SR, chans):
+    """a parent that holds (a) a subsequence with a hole at position 1 and (b) a subsequence whose elements define
+    different channel sets (in random order, sometimes beside a consistent entry): each of them is inconsistent by
+    itself, so the parent's checkConsistency answers False (it raised SequenceConsistencyError before the repair D27)
+    and every gated operation refuses"""
+    r = g.r
+    sg = SeqGen(g)
+    ops = [{"op": "sq.new", "id": "s"}, {"op": "sq.setSR", "id": "s", "v": enc(SR)}]
+    kinds = ["hole", "chans"]
+    r.shuffle(kinds)
+    if r.random() < 0.5:
+        kinds.insert(r.randrange(3), r.choice(["ok", "el"]))
+    for p, kind in enumerate(kinds, 1):
+        if kind == "el":
+            eid = g.fresh("e")
+            ops += sg.element(eid, SR, r.randint(4, 12), list(chans), raw_p=0.2, markers=False, seg_markers=False)
+            ops.append({"op": "sq.addElement", "id": "s", "pos": p, "el": eid})
+            continue
+        sub = g.fresh("s")
+        ops += [{"op": "sq.new", "id": sub}, {"op": "sq.setSR", "id": sub, "v": enc(SR)}]
+        if kind == "hole":
+            inner = [(q_, list(chans)) for q_ in r.choice([[2], [2, 3], [3, 2]])]
+        elif kind == "chans":
+            other = chans[:-1] + ["zz"] if r.random() < 0.5 else chans + ["extra"]
+            inner = [(1, list(chans)), (2, other)]
+            r.shuffle(inner)
+        else:
+            inner = [(1, list(chans))]
+        for q_, chs in inner:
+            eid = g.fresh("e")
+            r.shuffle(chs)
+            ops += sg.element(eid, SR, r.randint(4, 12), chs, raw_p=0.2, markers=False, seg_markers=False)
+            ops.append({"op": "sq.addElement", "id": sub, "pos": q_, "el": eid})
+        ops.append({"op": "sq.addSub", "id": "s", "pos": p, "sub": sub})
+    for ch in chans:
+        ops.append({"op": "sq.setAmp", "id": "s", "ch": ch, "v": 10})
+        ops.append({"op": "sq.setOff", "id": "s", "ch": ch, "v": 0})
+    return ops
+
+
 def observe(sid, other):
     return [{"op": "sq.SR", "id": sid},         # (a getter: reading it must not create the setting)
             {"op": "sq.new", "id": "z"},        # an empty operand without any settings: + still gates on the other operand
@@ -88,6 +129,9 @@ def case(g, tier, ci):
         # a position below 1 next to a gap, so that the highest position still equals the number of entries
         positions = [p for p in range(1, k + 1) if p != k - 1] + [r.choice([0, 0, -1])]
         r.shuffle(positions)
+    if ci % 12 == 7:
+        # inconsistent subsequences inside the parent, then check (plain and verbose), channels, forge, + (observe)
+        return inconsistent_subs(g, SR, chans) + build(g, "t", [1], SR, chans, subs=0.0) + observe("s", "t")
     dv = None
     u = r.random()
     if positions and u < 0.20:
